@@ -169,6 +169,12 @@ pub struct MapEng<'c, KD: Kind, const N: usize> {
     pub op_unchecked: bool,
     /// the op in flight only called `&self` methods (get, get_key_value, contains_key, index)
     pub op_readonly: bool,
+    /// C09: the models as they were when the op in flight started, for ops that can leave the
+    /// contents as they are although they take `&mut self` (get_mut without a write, entry of a
+    /// present key, removal of an absent key, a retain that keeps everything, ...)
+    pub quiet0: Option<[Option<Model>; 2]>,
+    /// ledger violations recorded before the op in flight started
+    pub viol0: usize,
     pub ever_unchecked: bool,
     pub ever_cloned: bool,
 }
@@ -219,6 +225,8 @@ impl<'c, KD: Kind, const N: usize> MapEng<'c, KD, N> {
             ever_overflow: false,
             op_unchecked: false,
             op_readonly: false,
+            quiet0: None,
+            viol0: 0,
             ever_unchecked: false,
             ever_cloned: false,
         }
@@ -394,11 +402,19 @@ impl<'c, KD: Kind, const N: usize> MapEng<'c, KD, N> {
                     cx.chk(p_well, got == Ok(Some(o.ka)), "yield-vs-get_key_value", || format!("get_key_value({}) does not return the yielded key", o.raw));
                 }
             }
-            if self.op_readonly && !liar {
-                // "iterating twice without an intervening mutation yields the same order": a call that
-                // takes `&self` is no mutation
+            // "iterating twice without an intervening mutation yields the same order": a call that
+            // takes `&self` is no mutation, and neither is a call that takes `&mut self` and
+            // leaves every key, every value and every stored object as it was (a get_mut through
+            // which nothing is written, entry() of a present key that is only read, the removal
+            // of an absent key, a retain that keeps everything and rewrites nothing, ...)
+            let untouched = self.quiet0.as_ref().is_some_and(|q| q[w].as_ref() == Some(&slot.model)) && !faulted;
+            if (self.op_readonly || untouched) && !liar {
+                if untouched {
+                    cx.bump(S::order_checks_across_quiet_mut_calls);
+                }
                 let same = slot.order.len() == obs.len() && slot.order.iter().zip(obs.iter()).all(|(a, o)| *a == o.raw);
-                cx.chk(PS::of(Prop::C09), same, "order-stable", || format!("iteration order changed across a read-only lookup: {:?} before, {:?} after", slot.order, obs.iter().map(|o| o.raw).collect::<Vec<_>>()));
+                let what = if self.op_readonly { "a read-only lookup" } else { "a call that left every entry as it was" };
+                cx.chk(PS::of(Prop::C09), same, "order-stable", || format!("iteration order changed across {what}: {:?} before, {:?} after", slot.order, obs.iter().map(|o| o.raw).collect::<Vec<_>>()));
             }
             slot.order.clear();
             slot.order.extend(obs.iter().map(|o| o.raw));
@@ -474,7 +490,12 @@ impl<'c, KD: Kind, const N: usize> MapEng<'c, KD, N> {
         if KD::TRACKED {
             let cx = &mut *self.cx;
             if let Some(v) = tl::ledger_first_violation() {
-                cx.chk(p_ledger, false, "ledger", || v);
+                // "the same results and effects as the direct map operations": the direct operation
+                // destroys what it takes out or replaces exactly once and touches no dead slot, so
+                // an entry method in which the first such violation of the case happens is C11's
+                // as well (without injected panics; what happens around those is C04's)
+                let own = if cx.cur_op == "entry" && !self.ever_faulted && self.viol0 == 0 { p_ledger.and(Prop::C11) } else { p_ledger };
+                cx.chk(own, false, "ledger", || v);
             }
             if faulted {
                 let n = tl::ledger_excuse_unstored(&stored);
@@ -548,6 +569,12 @@ impl<'c, KD: Kind, const N: usize> MapEng<'c, KD, N> {
         self.op_overflow = false;
         self.op_unchecked = false;
         self.op_readonly = matches!(opi, OP_GET | OP_GET_KV | OP_CONTAINS | OP_INDEX);
+        self.viol0 = tl::ledger_violation_count();
+        self.quiet0 = if self.cx.armed == Prop::C09 && matches!(opi, OP_GET_MUT | OP_INDEX_MUT | OP_REMOVE | OP_REMOVE_ENTRY | OP_RETAIN | OP_WALK | OP_ENTRY | OP_DISJOINT | OP_CHECKED | OP_FMT | OP_EQ | OP_CAP) {
+            Some([self.slots[0].as_ref().map(|s| s.model.clone()), self.slots[1].as_ref().map(|s| s.model.clone())])
+        } else {
+            None
+        };
         let (a, b, c) = (raw[1], raw[2], raw[3] & 0x7f);
         let lied0 = tl::liar_lies();
         match opi {
